@@ -156,9 +156,15 @@ def _pos_case(repo, it, S, spec):
                 if expand and not within:
                     for i in want:
                         wa, wb = min(wa, sp[i][0]), max(wb, sp[i][1])
+                if which != "big" and expand and (wa < cstart or wb > cend):
+                    # expanding to children past either edge of a collection that carries sequence is refused (the sequence
+                    # of the expanded range is not there)
+                    if not (k == "raise" and v == "InvalidQueryError"):
+                        side = "left" if wa < cstart else "right"
+                        out.append((f"expansion past the {side} edge refused", f"{desc} -> {k}:{member_ids(v) if k == 'ok' else v}; expanding to "
+                                    f"[{wa},{wb}) leaves the collection [{cstart},{cend}) that carries sequence: documented InvalidQueryError", f.qual))
+                    continue
                 if k != "ok":
-                    if which != "big" and expand and (wa < cstart or wb > cend) and v == "InvalidQueryError":
-                        continue
                     out.append(("query", f"{desc} raises {v}; expected members {want}", f.qual))
                     continue
                 got = member_ids(v)
@@ -327,6 +333,9 @@ def rk_position(ctx):
             if ctx.thorough or (i + scuts.index(b)) % 2 == 0:
                 specs.append(("chunk", None, a, b))
                 specs.append(("chunkwide", (0, len(GENOME)), a, b))
+            # explicit bounds narrower than the members: s1 [4,20) overhangs the left edge, sf [..,36) the right one
+            if 8 <= a and b <= 33:
+                specs.append(("small", (8, 33), a, b))
     ctx.r.floor("C09.RK", "position queries", len(specs), 150)
     from ..par import pmap
     results = pmap(_runner(ctx.repo, _pos_case), specs)
